@@ -162,6 +162,7 @@ Record session := mksess {
   s_pubs : list (N * N);           (* stream -> media-server token *)
   s_subs : list ((N * N) * N);     (* (publisher sid, stream) -> token *)
   s_pubmedia : list (N * N);       (* token -> media bits of the publisher *)
+  s_rel : N;                       (* number of times the media objects were released *)
 }.
 
 Record room := mkroom {
@@ -173,6 +174,18 @@ Record room := mkroom {
 }.
 
 Record conn := mkconn { c_addr : N; c_sess : option N; c_expect : bool }.
+
+(* a creation at the media server that has not completed yet *)
+Record mcupend := mkpend {
+  mp_kind : N;      (* 0 publisher, 1 subscriber *)
+  mp_owner : N;     (* session the object is created for *)
+  mp_stream : N;
+  mp_pubof : N;     (* subscribers: session whose stream is subscribed *)
+  mp_media : N;
+  mp_rel : N;       (* owner's release counter when the creation started *)
+  mp_reply : N;     (* 1: answer to the owner, 2: offer from mp_pubof to the owner, 0: nothing *)
+  mp_errto : N;     (* session that is told when the creation fails *)
+}.
 
 (* bus publications *)
 Inductive subject := SubjRoom (b r : N) | SubjBackendRoom (b r : N) | SubjUser (b u : N) | SubjSession (sid : N) | SubjNobody.
@@ -204,7 +217,7 @@ Record hub := mkhub {
   h_fail : list ((N * N) * N);     (* (address, action) -> recorded failures (throttle; all within 30 min) *)
   h_bus : list pub;
   h_mcutok : N;
-  h_mcupending : list (N * (N * N * N * N));   (* token -> (kind, owner, stream, publisher sid) awaiting completion *)
+  h_mcupending : alist mcupend;    (* creations awaiting completion (gated media server) *)
   h_mcuopen : list N;
   h_gated : bool;
 }.
@@ -232,7 +245,7 @@ Definition set_mcu h tok pend opn := mkhub h.(h_limits) h.(h_nb) h.(h_nextsid) h
 
 Definition upd_sess (s : session) f_room f_rs f_conn f_perms f_pending f_seen f_join :=
   mksess s.(s_backend) s.(s_kind) s.(s_user) f_room f_rs f_conn f_perms f_pending f_seen f_join
-         s.(s_incall) s.(s_flags) s.(s_pubs) s.(s_subs) s.(s_pubmedia).
+         s.(s_incall) s.(s_flags) s.(s_pubs) s.(s_subs) s.(s_pubmedia) s.(s_rel).
 Definition sess_room s v := upd_sess s v s.(s_rs) s.(s_conn) s.(s_perms) s.(s_pending) s.(s_seen) s.(s_join).
 Definition sess_rs s v := upd_sess s s.(s_room) v s.(s_conn) s.(s_perms) s.(s_pending) s.(s_seen) s.(s_join).
 Definition sess_conn s v := upd_sess s s.(s_room) s.(s_rs) v s.(s_perms) s.(s_pending) s.(s_seen) s.(s_join).
@@ -242,7 +255,10 @@ Definition sess_seen s v := upd_sess s s.(s_room) s.(s_rs) s.(s_conn) s.(s_perms
 Definition sess_join s v := upd_sess s s.(s_room) s.(s_rs) s.(s_conn) s.(s_perms) s.(s_pending) s.(s_seen) v.
 Definition sess_media (s : session) incall flags pubs subs pm :=
   mksess s.(s_backend) s.(s_kind) s.(s_user) s.(s_room) s.(s_rs) s.(s_conn) s.(s_perms) s.(s_pending) s.(s_seen) s.(s_join)
-         incall flags pubs subs pm.
+         incall flags pubs subs pm s.(s_rel).
+Definition sess_rel (s : session) (v : N) :=
+  mksess s.(s_backend) s.(s_kind) s.(s_user) s.(s_room) s.(s_rs) s.(s_conn) s.(s_perms) s.(s_pending) s.(s_seen) s.(s_join)
+         s.(s_incall) s.(s_flags) s.(s_pubs) s.(s_subs) s.(s_pubmedia) v.
 
 Definition get_sess (h : hub) (sid : N) : option session := aget h.(h_sessions) sid.
 Definition put_sess (h : hub) (sid : N) (s : session) : hub := set_sessions h (aset h.(h_sessions) sid s).
@@ -346,7 +362,7 @@ Definition release_mcu (h : hub) (sid : N) : hub * list out :=
   | None => (h, [])
   | Some s =>
       let toks := map snd s.(s_pubs) ++ map snd s.(s_subs) in
-      let h1 := put_sess h sid (sess_media s s.(s_incall) s.(s_flags) [] [] []) in
+      let h1 := put_sess h sid (sess_rel (sess_media s s.(s_incall) s.(s_flags) [] [] []) (s.(s_rel) + 1)) in
       close_tokens h1 toks
   end.
 
@@ -500,7 +516,7 @@ Definition counted_of (h : hub) (b : N) : list N := match aget h.(h_counted) b w
 
 Definition new_session (b : N) (k : kind) (u : N) (c : N) : session :=
   mksess b k u None 0 (Some c) None [] [] 0
-         (match k with KInternal false _ => 3 | _ => 0 end) 0 [] [] [].
+         (match k with KInternal false _ => 3 | _ => 0 end) 0 [] [] [] 0.
 
 (* processRegister after successful authentication *)
 Definition register (h : hub) (c : N) (cn : conn) (b : N) (k : kind) (u : N) : hub * list out :=
@@ -967,7 +983,7 @@ Definition do_internal (h : hub) (c sid : N) (s : session) (q : internalreq) : h
           let incallfeat := match s.(s_kind) with KInternal f _ => f | _ => false end in
           let ic := match incall with Some x => x | None => if incallfeat then 0 else 5 end in
           let fl := match flags with Some x => x | None => 0 end in
-          let vsess := mksess s.(s_backend) (KVirtual sid v) user None 0 None None [] [] 0 ic fl [] [] [] in
+          let vsess := mksess s.(s_backend) (KVirtual sid v) user None 0 None None [] [] 0 ic fl [] [] [] 0 in
           let h1 := put_sess h0 vs vsess in
           let h2 := set_vtable h1 (pset h1.(h_vtable) (sid, v) vs) in
           (* SetRoom: room session = own public id *)
@@ -1021,6 +1037,125 @@ Definition do_internal (h : hub) (c sid : N) (s : session) (q : internalreq) : h
                  (publish h2 (SubjRoom (fst k) (snd k)) (AEvent (SPart 0) 0 false), o2)
         | None => (h1, [])
         end
+  end.
+
+
+(* ------------------------------------------------------------------ media (clientsession.go, hub.go processMcuMessage) *)
+(* media bits of an offer: 1 audio, 2 video; MediaTypeScreen = 4 *)
+Definition offer_allowed (p : option N) (stream media : N) : bool :=
+  if N.eqb stream 2 then has_perm p P_SCREEN
+  else (negb (N.testbit media 0) || has_perm p P_MEDIA || has_perm p P_AUDIO) &&
+       (negb (N.testbit media 1) || has_perm p P_MEDIA || has_perm p P_VIDEO).
+
+(* IsAllowedToSend for candidates and the like *)
+Definition send_allowed (p : option N) (stream : N) : bool :=
+  if N.eqb stream 2 then has_perm p P_SCREEN
+  else has_perm p P_MEDIA || has_perm p P_AUDIO || has_perm p P_VIDEO.
+
+Definition same_call (h : hub) (sid : N) (s : session) (n : N) : bool :=
+  if is_internal s.(s_kind) then true
+  else
+    match s.(s_room) with
+    | None => false
+    | Some k =>
+        in_call h sid s &&
+        match get_sess h n with
+        | None => false
+        | Some t => opt_pair_eqb t.(s_room) (Some k) && (is_internal t.(s_kind) || in_call h n t)
+        end
+    end.
+
+Definition sub_get (s : session) (pubof stream : N) : option N := pget s.(s_subs) (pubof, stream).
+
+(* the continuation of GetOrCreatePublisher / GetOrCreateSubscriber once the media server answered *)
+Definition finish_create (h : hub) (tok : N) (p : mcupend) (ok : bool) : hub * list out :=
+  if negb ok then
+    let '(h1, o1) := send_session h p.(mp_errto) (SError E_client_not_found) in (h1, ToMcu (MFailed tok) :: o1)
+  else
+    match get_sess h p.(mp_owner) with
+    | None => (* the session was closed: its context is cancelled, the creation fails *)
+        (h, [ToMcu (MFailed tok)])
+    | Some s =>
+        if negb (N.eqb s.(s_rel) p.(mp_rel)) then
+          (* released in the meantime: the new object is closed again *)
+          let '(h1, o1) := send_session h p.(mp_errto) (SError E_client_not_found) in
+          (h1, ToMcu (MCreated tok) :: ToMcu (MClose tok) :: o1)
+        else if N.eqb p.(mp_kind) 0 then
+          match aget s.(s_pubs) p.(mp_stream) with
+          | Some _ => (* somebody else created it while we waited: the new one is closed *)
+              let '(h1, o1) := if N.eqb p.(mp_reply) 1 then send_session h p.(mp_owner) (SMedia 1 p.(mp_owner)) else (h, []) in
+              (h1, ToMcu (MCreated tok) :: ToMcu (MClose tok) :: o1)
+          | None =>
+              let s1 := sess_media s s.(s_incall) s.(s_flags) (aset s.(s_pubs) p.(mp_stream) tok) s.(s_subs) (aset s.(s_pubmedia) tok p.(mp_media)) in
+              let h1 := put_sess h p.(mp_owner) s1 in
+              let h2 := set_mcu h1 h1.(h_mcutok) h1.(h_mcupending) (h1.(h_mcuopen) ++ [tok]) in
+              let '(h3, o3) := if N.eqb p.(mp_reply) 1 then send_session h2 p.(mp_owner) (SMedia 1 p.(mp_owner)) else (h2, []) in
+              (h3, ToMcu (MCreated tok) :: o3)
+          end
+        else
+          match sub_get s p.(mp_pubof) p.(mp_stream) with
+          | Some _ =>
+              let '(h1, o1) := if N.eqb p.(mp_reply) 2 then send_session h p.(mp_owner) (SMedia 2 p.(mp_pubof)) else (h, []) in
+              (h1, ToMcu (MCreated tok) :: ToMcu (MClose tok) :: o1)
+          | None =>
+              let s1 := sess_media s s.(s_incall) s.(s_flags) s.(s_pubs) (pset s.(s_subs) (p.(mp_pubof), p.(mp_stream)) tok) s.(s_pubmedia) in
+              let h1 := put_sess h p.(mp_owner) s1 in
+              let h2 := set_mcu h1 h1.(h_mcutok) h1.(h_mcupending) (h1.(h_mcuopen) ++ [tok]) in
+              let '(h3, o3) := if N.eqb p.(mp_reply) 2 then send_session h2 p.(mp_owner) (SMedia 2 p.(mp_pubof)) else (h2, []) in
+              (h3, ToMcu (MCreated tok) :: o3)
+          end
+    end.
+
+Definition start_create (h : hub) (p : mcupend) : hub * list out :=
+  let tok := h.(h_mcutok) + 1 in
+  let ev := ToMcu (MCreate p.(mp_kind) tok p.(mp_owner) p.(mp_stream) p.(mp_pubof)) in
+  if h.(h_gated) then
+    (set_mcu h tok (h.(h_mcupending) ++ [(tok, p)]) h.(h_mcuopen), [ev])
+  else
+    let '(h1, o1) := finish_create (set_mcu h tok h.(h_mcupending) h.(h_mcuopen)) tok p true in (h1, ev :: o1).
+
+Definition do_mcudone (h : hub) (tok : N) (ok : bool) : hub * list out :=
+  match aget h.(h_mcupending) tok with
+  | None => (h, [])
+  | Some p => finish_create (set_mcu h h.(h_mcutok) (adel h.(h_mcupending) tok) h.(h_mcuopen)) tok p ok
+  end.
+
+Definition do_media (h : hub) (c sid : N) (s : session) (to : recipient) (mk stream media : N) : hub * list out :=
+  match to with
+  | RSession (IdPub n) =>
+      if N.eqb mk 0 then
+        (* offer: create or update the publisher of the stream, answer comes back *)
+        if negb (offer_allowed s.(s_perms) stream media) then (h, [ToConn c (SError E_not_allowed)])
+        else
+          let mt := if N.eqb stream 2 then 4 else N.land media 3 in
+          match aget s.(s_pubs) stream with
+          | Some tok =>
+              let s1 := sess_media s s.(s_incall) s.(s_flags) s.(s_pubs) s.(s_subs) (aset s.(s_pubmedia) tok mt) in
+              send_session (put_sess h sid s1) sid (SMedia 1 sid)
+          | None => start_create h (mkpend 0 sid stream 0 mt s.(s_rel) 1 sid)
+          end
+      else if N.eqb mk 1 then
+        (* requestoffer *)
+        if N.eqb n sid then (h, [])
+        else if negb (same_call h sid s n) then (h, [ToConn c (SError E_not_allowed)])
+        else match sub_get s n stream with
+             | Some _ => send_session h sid (SMedia 2 n)
+             | None => start_create h (mkpend 1 sid stream n 0 s.(s_rel) 2 sid)
+             end
+      else if N.eqb mk 2 then
+        (* candidate *)
+        if N.eqb n sid then
+          if negb (send_allowed s.(s_perms) stream) then (h, [ToConn c (SError E_not_allowed)])
+          else match aget s.(s_pubs) stream with
+               | Some _ => (h, [])
+               | None => (h, [ToConn c (SError E_client_not_found)])
+               end
+        else match sub_get s n stream with
+             | Some _ => (h, [])
+             | None => (h, [ToConn c (SError E_client_not_found)])
+             end
+      else (h, [])
+  | _ => (h, [])
   end.
 
 (* ------------------------------------------------------------------ one step *)
@@ -1086,8 +1221,8 @@ Definition step (h : hub) (o : op) : hub * list out :=
   | OApi b signas room q =>
       if negb (N.eqb b signas) || (h.(h_nb) <=? b) then (h, []) else do_api h b room q
   | OInternal c q => with_session h c (fun cn sid s => if is_internal s.(s_kind) then do_internal h c sid s q else (h, []))
-  | OMedia c to mk stream media => (h, [])
-  | OMcuDone tok ok => (h, [])
+  | OMedia c to mk stream media => with_session h c (fun cn sid s => do_media h c sid s to mk stream media)
+  | OMcuDone tok ok => do_mcudone h tok ok
   | OTransient c kindn key val =>
       with_session h c (fun cn sid s =>
         match s.(s_room) with
